@@ -35,7 +35,8 @@ RULE = ('table: every combination of stage{absent,6 stages,unknown} x method_nam
         'labels, unknown stages mixed in; installed and driven 3 times per place with a scripted clock. Non-trivial = '
         'two tracepoints share a location or an uninterpretable tracepoint sits next to interpretable ones. Distinct = '
         'distinct canonical JSON of the case.')
-TRUSTED = ['protobuf runtime: a TracePointConfig built from the case reads back the same args/watches/metrics',
+TRUSTED = ['protobuf runtime: a TracePointConfig built from the case, serialised and parsed (what convert_response is '
+           'given), reads back the same args/watches/metrics',
            'rig.MockFrame events stand for CPython line/call events (location matching itself is C03)']
 ASSUMPTIONS = ['START/END/CAPTURE positions are not interpreted by the agent (DESIGN §6); two tracepoints on one line '
                'with different stages share one trigger and the first position',
@@ -288,10 +289,24 @@ def proto_metric(m):
     return Metric(name=m['name'], type=m['type'], labelExpressions=labels, **kw)
 
 
+def fresh(x):
+    """the same text as a NEW str object built at run time — what the agent gets from the wire or from computed
+    configuration; never the interned literal of a source file (so `is` against a constant cannot pass by accident)"""
+    if isinstance(x, str):
+        return ''.join(list(x)) if len(x) > 1 else x
+    if isinstance(x, dict):
+        return {fresh(k): fresh(v) for k, v in x.items()}
+    if isinstance(x, list):
+        return [fresh(v) for v in x]
+    return x
+
+
 def proto_tp(tp):
+    """the tracepoint as the agent receives it: a protobuf message PARSED from bytes (serialise -> parse)"""
     from deepproto.proto.tracepoint.v1.tracepoint_pb2 import TracePointConfig
-    return TracePointConfig(ID=tp['id'], path=tp['path'], line_number=tp['line'], args=tp['args'],
-                            watches=tp['watches'], metrics=[proto_metric(m) for m in tp['metrics']])
+    m = TracePointConfig(ID=tp['id'], path=tp['path'], line_number=tp['line'], args=tp['args'],
+                         watches=tp['watches'], metrics=[proto_metric(m) for m in tp['metrics']])
+    return TracePointConfig.FromString(m.SerializeToString())
 
 
 def real_metrics(ms):
@@ -304,7 +319,7 @@ def run_table(case):
     rows = []
     ms = ONE_METRIC if case['metrics'] else []
     for idx in range(case['lo'], case['hi']):
-        args = decode_args(idx)
+        args = fresh(decode_args(idx))
         try:
             rows.append(dump_trigger(build_trigger('tp', 'host.py', 7, args, list(case['watches']), real_metrics(ms))))
         except Exception as e:  # noqa: B902
@@ -316,7 +331,7 @@ def run_build(case):
     from deep.api.tracepoint.trigger import build_trigger
     tp = case['tp']
     try:
-        return {'trigger': dump_trigger(build_trigger(tp['id'], tp['path'], tp['line'], dict(tp['args']),
+        return {'trigger': dump_trigger(build_trigger(fresh(tp['id']), fresh(tp['path']), tp['line'], fresh(tp['args']),
                                                       list(tp['watches']), real_metrics(tp['metrics'])))}
     except Exception as e:  # noqa: B902
         return {'raised': f'{type(e).__name__}: {e}'}
@@ -336,9 +351,10 @@ class Inline:
 
 def frame_for(place, locals_):
     kind, path, what = place
+    caller = MockFrame('/app/caller.py', 'caller_fn', 3, {'outer_v': 1, 'outer_w': 'two'})    # a second frame
     if kind == 'line':
-        return MockFrame('/app/' + path, 'host_fn', what, dict(locals_)), 'line'
-    return MockFrame('/app/' + path, what, 1, dict(locals_)), 'call'
+        return MockFrame('/app/' + path, 'host_fn', what, dict(locals_), f_back=caller), 'line'
+    return MockFrame('/app/' + path, what, 1, dict(locals_), f_back=caller), 'call'
 
 
 def drive(rig, case, id_to_idx, phase=0):
@@ -366,6 +382,7 @@ def drive(rig, case, id_to_idx, phase=0):
                 if i is not None and str(i) not in snaps:
                     snaps[str(i)] = {'watches': [w.expression for w in s.watches if w.source == 'WATCH'],
                                      'log': s.log_msg is not None,
+                                     'frame_vars': [len(f.variables) > 0 for f in s.frames],
                                      'place': [s.tracepoint.path, s.tracepoint.line_no]}
             for (_msg, tpid, _ctx) in rig.logger.logged[n_log:]:
                 bump(tpid, 'log')
@@ -385,9 +402,24 @@ def drive(rig, case, id_to_idx, phase=0):
     return effects, snaps
 
 
+class ClockedRig(Rig):
+    """the frame collector measures its time budget with its own time_ns: give it the scripted clock too, otherwise
+    every scripted (small) time stamp looks like an exceeded budget and no variables are collected"""
+
+    def __init__(self, **kw):
+        import deep.processor.frame_collector as fc
+        super().__init__(**kw)
+        self._fc, self._fc_orig = fc, fc.time_ns
+        fc.time_ns = self._now
+
+    def close(self):
+        self._fc.time_ns = self._fc_orig
+        super().close()
+
+
 def run_response(case):
     import deep.grpc as g
-    rig = Rig(metric=True, span=True)
+    rig = ClockedRig(metric=True, span=True)
     try:
         try:
             triggers = g.convert_response([proto_tp(tp) for tp in case['tps']])
@@ -407,7 +439,7 @@ def run_response(case):
 
 
 def run_register(case):
-    rig = Rig(metric=True, span=True)
+    rig = ClockedRig(metric=True, span=True)
     try:
         svc = rig.config.tracepoints
         svc.set_task_handler(Inline())
@@ -423,7 +455,7 @@ def run_register(case):
             for i, tp in enumerate(case['tps']):
                 if i in service:
                     continue
-                rid = svc.add_custom(tp['path'], tp['line'], dict(tp['args']), list(tp['watches']),
+                rid = svc.add_custom(fresh(tp['path']), tp['line'], fresh(tp['args']), fresh(tp['watches']),
                                      real_metrics(tp['metrics']))
                 id_to_idx[rid] = i
                 rid_of[i] = rid
@@ -592,6 +624,11 @@ def oracle(case, obs):
             v.append(f'snapshot of tracepoint {i} evaluated watches {s["watches"]}, its own are {tp["watches"]}')
         if s['log'] != ('log_msg' in tp['args']):
             v.append(f'snapshot of tracepoint {i}: log message present={s["log"]}, args {tp["args"]}')
+        ft = tp['args'].get('frame_type', 'single_frame')
+        want = [True, True] if ft == 'all_frame' else [False, False] if ft == 'no_frame' else [True, False]
+        if s.get('frame_vars') != want:
+            v.append(f'snapshot of tracepoint {i} with frame_type={ft!r}: variables collected per frame '
+                     f'{s.get("frame_vars")}, the frame type asks for {want} (current frame, caller)')
     return v[:8]
 
 
@@ -695,7 +732,7 @@ def gen_tp(rng, i, effects=True):
     elif cond is not None:
         args['condition'] = 'c%d' % i
     if rng.random() < 0.6:
-        args['fire_count'] = rng.choice(['1', '2', '3', '-1', '0', 'abc', ' 2 '])
+        args['fire_count'] = rng.choice(['1', '2', '3', '-1', '0', 'abc', ' 2 ', '300'])
     if rng.random() < 0.6:
         args['fire_period'] = rng.choice(['0', '1', '1000', '5', 'x'])
     if rng.random() < 0.3:
